@@ -62,6 +62,7 @@ ODD_STMTS = ["write(*,*) x, y", "if (n < 0) return", "call helper(a, n, x)",
 KINDS_MODULE = """module kinds_mod
   implicit none
   integer, parameter :: wp = kind(1.0d0)
+  integer, parameter :: wp_1 = kind(1.0)
   integer, parameter :: ik = kind(1)
 end module kinds_mod
 """
@@ -78,12 +79,14 @@ KINDS_STMTS = ["x = w4(2) * x", "v1(:) = w4(:)", "k = perm(1)",
                "x = x + wloc(perm(2))"]
 HELPER_KINDS = """
   subroutine helper(arr, n, x)
-    use kinds_mod, only: wp, ik
+    use kinds_mod, only: wp_1, wp, ik
     integer, intent(in) :: n
     real(kind=wp), dimension(n), intent(inout) :: arr
     real(kind=wp), intent(inout) :: x
     real(kind=wp) :: t, y
+    real(kind=wp_1) :: shalf
     integer(kind=ik) :: i, k
+    shalf = 0.5_wp_1
 {body}
   end subroutine helper
 """
